@@ -117,9 +117,19 @@ StartOf(k) ==
   /\ done' = OutsOf(s.pool) /\ ran' = {} /\ db' = [pool |-> {}]
   /\ fb' = [dup |-> Faults.dup, crash |-> Faults.crash]
 
+(* The run ended because the real scheduler went idle (three iterations without doing anything, nothing left  *)
+(* in the environment) without shutting down or reporting a stall: then no scheduler-side action of the model *)
+(* may be enabled in the last state either - otherwise the implementation is sitting on work it could do.     *)
+Starved ==
+  IF MT_Ends[tid] # "quiescent" \/ stopped # "no" THEN {}
+  ELSE {x[1] : x \in {y \in {
+         <<"C03_Starved:ComputeRunahead", ENABLED ComputeRunahead>>,
+         <<"C03_Starved:ReleaseRunahead", ENABLED ReleaseRunahead>>,
+         <<"C03_Starved:QueueIfReady", \E i \in DOMAIN pool : ~RetryPending(pool, i) /\ ENABLED QueueIfReady(i)>>,
+         <<"C03_Starved:ReleaseQueues", ENABLED ReleaseQueues>>} : y[2]}}
 NextRun ==
   /\ l = Len(Run) /\ tid <= Len(MT_Runs)
-  /\ PrintT(<<"MTVERDICT", tid, Len(Run), bad>>)
+  /\ PrintT(<<"MTVERDICT", tid, Len(Run), bad \cup {<<Len(Run), n>> : n \in Starved}>>)
   /\ IF tid < Len(MT_Runs)
      THEN StartOf(tid + 1) /\ tid' = tid + 1 /\ l' = 1 /\ bad' = {}
      ELSE UNCHANGED vars /\ tid' = tid + 1 /\ l' = 0 /\ bad' = {}
